@@ -1011,6 +1011,115 @@ def run_c03(ctx, spec, out):
     out.extra_cov["convergence_queries"] = len(spec_pairs)
 
 
+def parallel_rebuilds(ctx, rng, schema, impl_lines, n, count):
+    """The rebuild with MaxParallelPeerConnections > 1 (lmd's default): the tables are fetched concurrently, so a fault cannot be
+    placed at "the n-th backend query" as in the modelled histories - it is placed at one table (`fail_table`), whatever the order
+    of the fetches.  The model fetches one table after the other; these histories are therefore judged on the implementation alone,
+    with the property's own sentences: a rebuild in which a fetch failed leaves the backend flagged with the error, what is
+    served is the old object set or the new one or nothing - never a part of each - and after recovery it is the new set."""
+    out = []
+    for _ in range(count):
+        flavour, flags = worldgen.pick_flavour(rng)
+        if flavour == "icinga2":
+            flavour, flags = "naemon", ["Naemon"]
+        wb, flags = small_world(rng, schema, {"nhosts": [2, 3], "flavour": (flavour, flags)})
+        wb2, _ = small_world(rng, schema, {"nhosts": [1, 2, 4], "flavour": (flavour, flags)})
+        for r in wb2["tables"]["hosts"]["rows"]:
+            r["name"] = "new-" + r["name"]
+        for r in wb2["tables"]["services"]["rows"]:
+            r["host_name"] = "new-" + r["host_name"]
+        for t in ("comments", "downtimes"):
+            wb2["tables"][t]["rows"] = []
+        for t in ("hostgroups", "servicegroups"):
+            for r in wb2["tables"][t]["rows"]:
+                r["members"] = []
+        cfg = {"update_interval": 5, "max_parallel_peer_connections": 3, "backend_keepalive": False, "idle_timeout": 1000000, "stale_backend_timeout": 100000}
+        pid = wb["id"]
+        lines = []
+
+        def add(l):
+            nonlocal n
+            l = json.loads(json.dumps(dict(l, id=n)))
+            lines.append(l)
+            n += 1
+            return l["id"]
+        add({"op": "clock", "seconds": T0})
+        add({"op": "world", "world": {"config": cfg, "backends": [wb]}})
+        add({"op": "init", "peer": pid})
+        changes = [{"table": t, "replace": wb2["tables"][t]["rows"]} for t in ("hosts", "services", "hostgroups", "servicegroups", "comments", "downtimes")]
+        cont = json.loads(json.dumps(wb["tables"]["contacts"]["rows"][-1])) if wb["tables"]["contacts"]["rows"] else None
+        if cont:
+            cont["name"] = "new-contact"
+            changes.append({"table": "contacts", "add": cont})
+        rk = rng.random()
+        st = {"program_start": 1700000100, "nagios_pid": 4300} if rk < 0.5 else ({"program_start": 1700000100} if rk < 0.8 else {"nagios_pid": 4300})
+        changes.append({"table": "status", "key": {}, "set": st})
+        add({"op": "mutate", "backend": pid, "changes": changes})
+        add({"op": "advance", "seconds": rng.choice([5, 7])})
+        table = rng.choice(["contacts", "contactgroups", "commands", "timeperiods", "hostgroups", "servicegroups", "hosts", "services", "comments", "downtimes"])
+        add({"op": "mode", "backend": pid, "fail_table": table, "fail_mode": rng.choice(["error500", "closeearly", "garbage", "truncate"])})
+        t1 = add({"op": "tick", "peer": pid})
+        q1 = {t: add({"op": "query", "text": "GET %s\nColumns: %s\nOutputFormat: wrapped_json\n\n" % (t, " ".join(gen.key_columns(t))), "optimize": True}) for t in ("hosts", "services", "contacts")}
+        for d in (5, 61, 5):
+            add({"op": "advance", "seconds": d})
+            add({"op": "tick", "peer": pid})
+        s2 = add({"op": "state", "peer": pid})
+        q2 = {t: add({"op": "query", "text": "GET %s\nColumns: %s\nOutputFormat: wrapped_json\n\n" % (t, " ".join(gen.key_columns(t))), "optimize": True}) for t in ("hosts", "services", "contacts")}
+        old = {t: sorted(json.dumps([r[k] for k in gen.key_columns(t)]) for r in wb["tables"][t]["rows"]) for t in ("hosts", "services", "contacts")}
+        new = {t: sorted(json.dumps([r[k] for k in gen.key_columns(t)]) for r in wb2["tables"][t]["rows"]) for t in ("hosts", "services")}
+        new["contacts"] = sorted(old["contacts"] + ([json.dumps(["new-contact"])] if cont else []))
+        impl_lines += lines
+        out.append({"lines": lines, "table": table, "tick": t1, "q1": q1, "q2": q2, "state2": s2, "old": old, "new": new, "peer": pid})
+    return out
+
+
+def judge_parallel_rebuilds(v, impl, par):
+    def served(res, pid):
+        if not res or res.get("crash"):
+            return "crash"
+        try:
+            body = json.loads(res.get("body") or "null")
+        except ValueError:
+            return "error"
+        if not isinstance(body, dict):
+            return "error"
+        if pid in (body.get("failed") or {}):
+            return "failed"
+        return sorted(json.dumps(r) for r in body.get("data") or [])
+    for p in par:
+        case = {"text": "parallel rebuild, fault at table " + p["table"], "dataset": None, "extra": {"lines": p["lines"], "fault_table": p["table"]}}
+        v.stats["evaluated"] += 1
+        t = impl.get(p["tick"]) or {}
+        if t.get("crash"):
+            v.violations.append(("crash", case, "the daemon crashed in the rebuild: %s" % str(t.get("stderr", ""))[-400:]))
+            continue
+        st = t.get("state") or {}
+        hit = (t.get("fail_table_hits") or 0) > 0
+        if hit and st.get("status") == 0 and not st.get("last_error") and not t.get("err"):
+            v.violations.append(("property", case, "the fetch of table %s failed during the update run, yet the backend is reported up without an error" % p["table"]))
+            continue
+        kinds = {}
+        for tab, cid in p["q1"].items():
+            got = served(impl.get(cid), p["peer"])
+            kinds[tab] = "failed" if got == "failed" else "old" if got == p["old"][tab] else "new" if got == p["new"][tab] else "other: %s" % str(got)[:200]
+        distinct = set(kinds.values())
+        # contacts are the same objects plus one in the new set: with no contact row at all old and new coincide
+        if any(k.startswith("other") or k in ("crash", "error") for k in distinct) or (len(distinct - {"failed"}) > 1 and not (p["old"]["contacts"] == p["new"]["contacts"])) \
+                or ("failed" in distinct and len(distinct) > 1):
+            v.violations.append(("property", case, "after the interrupted rebuild the tables are served from different object sets: %s" % kinds))
+            continue
+        bad = {}
+        for tab, cid in p["q2"].items():
+            got = served(impl.get(cid), p["peer"])
+            if got != p["new"][tab]:
+                bad[tab] = str(got)[:200]
+        if bad:
+            v.violations.append(("property", case, "after recovery the served objects are not the backend's new set: %s" % bad))
+            continue
+        if hit:
+            v.stats["nontrivial"] += 1
+
+
 def run_c11(ctx, spec, out):
     rng = random.Random("C11-%d" % ctx["seed"])
     v = out.v
@@ -1138,7 +1247,10 @@ def run_c11(ctx, spec, out):
         nid = h.n
         impl_lines += h.impl
         model_lines += h.model
+    par = parallel_rebuilds(ctx, rng, schema, impl_lines, nid + 1, 6 if ctx["tier"] == "quick" else 80)
     impl, model = finish_histories(ctx, v, hists, impl_lines, model_lines)
+    judge_parallel_rebuilds(v, impl, par)
+    out.extra_cov["parallel_rebuild_histories"] = len(par)
     specres = common.run_model(ctx["schema_path"], spec_lines)
     for cid, sid, case in spec_pairs:
         s_res, m_res = specres.get(sid), model.get(cid)
